@@ -325,7 +325,13 @@ func (r *Run) entryLocks(fn *Func) lockset {
 		if d != nil {
 			funcs := append(append([]*Func{}, r.P.All...), r.P.Ext...)
 			for _, caller := range funcs {
-				for pi, path := range r.Paths(caller) {
+				var cpaths []Path
+				if !hasLockOps(caller) && len(r.E.Paths(caller)) > 64 {
+					cpaths = []Path{*r.flatPath(caller)}
+				} else {
+					cpaths = r.Paths(caller)
+				}
+				for pi, path := range cpaths {
 					r.at(&path)
 					var held []lockset
 					for i, ev := range path.Events {
@@ -337,7 +343,7 @@ func (r *Run) entryLocks(fn *Func) lockset {
 							continue
 						}
 						if held == nil {
-							held = r.locksAlong(&r.Paths(caller)[pi], lockset{})
+							held = r.locksAlong(&cpaths[pi], lockset{})
 						}
 						for _, g := range known {
 							r.callSites[g] = append(r.callSites[g], callSite{caller: caller, held: held[i]})
@@ -388,14 +394,74 @@ type callSite struct {
 	held   lockset
 }
 
+// hasLockOps: the function (or a literal inside it) calls a sync lock primitive.
+func hasLockOps(fn *Func) bool {
+	if fn.lockOps != 0 {
+		return fn.lockOps == 1
+	}
+	fn.lockOps = 2
+	if fn.Body == nil {
+		return false
+	}
+	info := fn.Info()
+	ast.Inspect(fn.Body, func(n ast.Node) bool {
+		if c, ok := n.(*ast.CallExpr); ok {
+			if f, ok := calleeObj(info, c).(*types.Func); ok && f.Pkg() != nil && f.Pkg().Path() == "sync" {
+				switch f.Name() {
+				case "Lock", "RLock", "Unlock", "RUnlock":
+					fn.lockOps = 1
+				}
+			}
+		}
+		return fn.lockOps != 1
+	})
+	return fn.lockOps == 1
+}
+
+// flatPath: for a function without lock operations the lockset is the same everywhere, so one
+// pseudo-path listing each statement once is enough for access and call-site collection.
+func (r *Run) flatPath(fn *Func) *Path {
+	if fn.flat != nil {
+		return fn.flat
+	}
+	seen := map[token.Pos]bool{}
+	p := &Path{Fn: fn}
+	for _, path := range r.E.Paths(fn) {
+		for _, ev := range path.Events {
+			k := ev.Pos
+			if ev.Node != nil {
+				k = ev.Node.Pos()*16 + token.Pos(ev.Kind)
+			}
+			if seen[k] {
+				continue
+			}
+			seen[k] = true
+			p.Events = append(p.Events, ev)
+		}
+		if len(p.Events) > 20000 {
+			break
+		}
+	}
+	fn.flat = p
+	return p
+}
+
 // allAccesses gathers the accesses of every repository function (closures inlined where the engine
 // inlines them; every other literal analysed as a function of its own).
 func (r *Run) allAccesses() []fieldAccess {
 	var out []fieldAccess
 	inlined := map[*ast.FuncLit]bool{}
 	do := func(fn *Func) {
-		paths := r.Paths(fn)
-		r.Analysed(fn, len(paths))
+		var paths []Path
+		if !hasLockOps(fn) && len(r.E.Paths(fn)) > 64 {
+			// no lock operation inside: one flattened pass
+			fp := r.flatPath(fn)
+			paths = []Path{*fp}
+			r.Analysed(fn, len(r.E.Paths(fn)))
+		} else {
+			paths = r.Paths(fn)
+			r.Analysed(fn, len(paths))
+		}
 		seen := map[string]bool{}
 		for pi := range paths {
 			path := &paths[pi]
@@ -779,7 +845,13 @@ func (r *Run) acquires(fn *Func, memo map[*Func]map[string]string, stack map[*Fu
 	stack[fn] = true
 	defer delete(stack, fn)
 	d := r.Deep()
-	for _, path := range r.Paths(fn) {
+	var apaths []Path
+	if !hasLockOps(fn) && len(r.E.Paths(fn)) > 16 {
+		apaths = []Path{*r.flatPath(fn)}
+	} else {
+		apaths = r.Paths(fn)
+	}
+	for _, path := range apaths {
 		r.at(&path)
 		for _, ev := range path.Events {
 			if ev.Kind == EvDefer {
@@ -826,6 +898,9 @@ func ruleLockOrder(r *Run) {
 	}
 	funcs := append(append([]*Func{}, r.P.All...), r.P.Ext...)
 	for _, fn := range funcs {
+		if !hasLockOps(fn) {
+			continue // holds nothing of its own: no acquire-while-held edge can start here
+		}
 		paths := r.Paths(fn)
 		r.Analysed(fn, len(paths))
 		for pi := range paths {
@@ -1079,6 +1154,9 @@ func ruleDeferUnlock(r *Run) {
 	}
 	sort.Slice(fns, func(i, j int) bool { return fns[i].Name < fns[j].Name })
 	for _, fn := range fns {
+		if !hasLockOps(fn) {
+			continue
+		}
 		for pi, path := range r.Paths(fn) {
 			r.at(&path)
 			_ = pi
